@@ -215,7 +215,7 @@ static void *al_new(size_t n)
     if (b) memset((char*)payload + n, 0xFD, RZ);
 #endif
     if (!b || !payload) { fprintf(stderr, "vdrv: out of memory\n"); _exit(2); }
-    b->magic = BLK_MAGIC; b->size = n; b->state = 1; b->tag = 0; b->seq = ++al_seq;
+    b->magic = BLK_MAGIC; b->size = n; b->state = 1; b->tag = 0; b->seq = ++al_seq; b->origin = 0;
     b->nextall = al_all; al_all = b; b->payload = payload;
     memset(payload, 0xAB, n);            /* uninitialised memory is recognisable */
     tab_put(payload, b);
@@ -251,7 +251,7 @@ long al_libc_malloc_calls, al_libc_free_calls, al_libc_realloc_calls;
 void *vd_libc_malloc(size_t n);
 void vd_libc_free(void *p);
 void *vd_libc_realloc(void *p, size_t n);
-void *vd_libc_malloc(size_t n) { al_libc_malloc_calls++; return al_malloc(n); }
+void *vd_libc_malloc(size_t n) { void *p; al_libc_malloc_calls++; p = al_malloc(n); if (p) al_find(p)->origin = 'L'; return p; }
 void vd_libc_free(void *p) { al_libc_free_calls++; al_free(p); }
 void *vd_libc_realloc(void *p, size_t n)
 {
@@ -262,7 +262,7 @@ void *vd_libc_realloc(void *p, size_t n)
     if (!b || b->state != 1) { al_bad_free++; return NULL; }
     al_allocs++; al_total_allocs++;
     if (al_fail_at && al_allocs == al_fail_at) return NULL;      /* a refused realloc leaves the old block alone */
-    q = al_new(n);
+    q = al_new(n); al_find(q)->origin = 'L';
     memcpy(q, p, b->size < n ? b->size : n);
     al_free(p);
     return q;
